@@ -41,7 +41,7 @@ RULE = ('random sequential architectures (depth 1-4 of Conv1d with stride/dilati
         '"Coverage audit"): model structure (nested containers, aliases, training mode, frozen parameters, extra '
         'forward args), numpy / negative / object forms of the scalar parameters, batch_size 0, a reference '
         'function of the caller, user hooks, directed tiny-delta_out units; cases with some '
-        '|delta_in| in [1e-9, 1e-4] are excluded and counted (hist key "band")')
+        '0 < |delta_in| <= 1e-4 are excluded and counted (hist key "band-excluded")')
 TRUSTED = ['probing of torch affine modules (Conv1d/Linear/AvgPool1d) into matrices with basis vectors; '
            'cross-checked on every case by comparing the model\'s forward value with torch\'s f(x), f(ref)',
            'co-simulation mode: torch\'s own forward values and ordinary derivatives of the activation '
@@ -50,7 +50,7 @@ TRUSTED = ['probing of torch affine modules (Conv1d/Linear/AvgPool1d) into matri
            'the theorems are about exact fields (instance QcX is used for the exact-mode cases)']
 ASSUMPTIONS = ['floating-point rounding is not modelled: residuals are judged with tolerance 1e-6 relative to '
                '1 + |f(x)| + |f(ref)| + sum |m_i (x_i - ref_i)|; multipliers with 1e-9 relative to the largest entry',
-               'the 1e-6 / 1e-7 switch bands are excluded ([1e-9, 1e-4]), not verified',
+               'the 1e-6 / 1e-7 switch bands are excluded (0 < |delta_in| <= 1e-4), not verified',
                'torch autograd dispatches the registered hooks as documented (exercised by every case)']
 ALLOW_MAXPOOL = True
 
@@ -816,7 +816,7 @@ def _analyse(inp):
         for idx, v in rec.items():
             i = v[0]
             d = (i[0:1] - i[1:]).abs()
-            if bool(((d >= 1e-9) & (d <= 1e-4)).any()):
+            if bool(((d > 0) & (d <= 1e-4)).any()):     # also float noise below 1e-9 (see design/C05.md, false alarms)
                 band = True
             if bool((d > 0).any()):
                 nontriv = True
